@@ -108,6 +108,10 @@ def pick_names(rng, cmd, p):
     n = rng.choice([1, 1, 2, 2, 3])
     r = rng.random()
     out = []
+    shadowed = [x for x in cligen.shadowed_names(p) if x in good]
+    if shadowed and rng.random() < 0.5:       # a type whose name is re-declared inside a function of another file
+        out = [rng.choice(shadowed)] + rng.sample(good, min(n - 1, len(good)))
+        return list(dict.fromkeys(out))
     if r < 0.55 and good:
         out = rng.sample(good, min(n, len(good)))
     elif r < 0.85 and everything:
@@ -152,6 +156,11 @@ def gen_cmdlines(rng, cmd, p):
             args = args + [rng.choice(["-sep", "-separate", "-sep=false", "-sep=true"])]
         rng.shuffle(args) if rng.random() < 0.3 and "-type" not in args and "-tagcase" not in args and "-way" not in args else None
         res.append((args, None, "list"))
+
+    # --- a type whose name is re-declared inside a function of another file, named explicitly
+    sh = [x for x in cligen.shadowed_names(p) if x in cligen.nameable_names(cmd, p)]
+    if sh:
+        res.append((xf() + ["-type=" + ",".join(rng.sample(sh, min(len(sh), rng.choice([1, 2]))))], None, "list"))
 
     # --- -file=f
     f = rng.choice(p.files).name
@@ -545,7 +554,8 @@ def handlers(run, shoot, gosig):
 
     # ---- fixed findings: the defect coming back is a violation
     def h_getgofile_ambiguous(e):
-        files = {"p/a.go": "package p\n\ntype T struct {\n\tx int\n}\n",
+        files = {"p/A0.go": "package p\n\nfunc helper() {\n\ttype T int\n\tvar _ T\n}\n",     # a local T in an earlier file
+                 "p/a.go": "package p\n\ntype T struct {\n\tx int\n}\n",
                  "p/b.go": "package p\n\ntype R[T any] struct {\n\tv T\n}\n\ntype Q[T any, U any] struct {\n\tv T\n\tu U\n}\n"}
         seen = set()
         for i in range(12):
@@ -555,7 +565,7 @@ def handlers(run, shoot, gosig):
             seen.add(o["created"][0])
         if seen == {"p/a.shootnew.t.go"}:
             return "correct"
-        if "p/b.shootnew.t.go" in seen:
+        if "p/b.shootnew.t.go" in seen or "p/A0.shootnew.t.go" in seen:
             return "buggy"
         return "other: %s" % sorted(seen)
 
@@ -649,7 +659,7 @@ def main(run):
     measured = run.replay_findings(handlers(run, shoot, gosig))
     run.log("findings:", measured)
 
-    nskel = 500 if run.thorough() else 42
+    nskel = 400 if run.thorough() else 34
     cases = gen_cases(run, nskel)
     # corpus of past failures first
     corpus = sorted((lib.VERIF / "corpus" / "C16").glob("*.json")) if (lib.VERIF / "corpus" / "C16").exists() else []
